@@ -134,16 +134,30 @@ CHECKS = {
              'EVERY event), generator, bbolt. Integer wrap-around outside the model (amounts of a universe sum below 2^63). No axioms (Print Assumptions '
              'closed).'),
     "C12": dict(
-        text="Per-operation theorems valid in EVERY store state: leased output absent from the spendable set and from the balance, other id cannot lease "
-             "(ErrAlreadyLocked, state unchanged) or release (ErrUnlockNotAllowed, unchanged), same id extends (new expiry = trunc_sec(now+dur)), owner release "
-             "frees, available again exactly when now >= stored expiry (iff), unknown output rejected; history-level theorem C12_leases_follow_ledger: after "
-             "every prefix of every chain-consistent history with any interleaving of lease/release/clock/sweep/receipt/spend/confirmation/reorg events the "
-             "lease bucket, 'known output', balance and spendable set are the ledger's; C12_confirmed_spend_removes_lease. Tie to the code: histories with a "
-             "mock clock (hook VerifSetClock) advanced to just before/at/after the second-truncated expiry, three lease ids, unknown/spent outpoints, "
-             "DeleteExpiredLockedOutputs, close-and-reopen of the database file.",
-        note="Model coq/Tx/Store.v transcribes wtxmgr bucket for bucket (10 buckets, InsertTx/AddCredit/Rollback/removeConflict/Balance/fetchCredits/leases/TxDetails/RangeTransactions); hypotheses: wf_universe (ids, positive amounts, duplicate-free inputs, inputs name existing outputs, acyclic by rank) and chain_consistent (decidable, Tx/Hist.v: what a validating node can emit - re-deliveries and unconfirmed conflicts allowed). Trusted: Coq kernel+vm_compute, the hand-written model (tied by the differential run after EVERY event), generator, bbolt. Integer wrap-around outside the model (amounts < 2^53, heights < 2^20 generated). Late discovery of credits not generated. No axioms (Print Assumptions closed). 'Leases survive restart' holds in the model because the lease bucket is database state (the store has no in-memory "
-             "part); it is exercised by the reopen runs. The expiry returned by LockOutput carries sub-second precision while the stored one is truncated to "
-             "seconds: theorems and comparison use the stored/listed expiry."),
+        text='15 theorems. Seven PER-OPERATION facts about the transcribed functions, valid in every store state and tied to wtxmgr by the correspondence '
+             'only (stated so in the file header): a leased output is absent from the spendable set and from the balance, another id cannot lease '
+             "(ErrAlreadyLocked, state unchanged) or release (ErrUnlockNotAllowed, unchanged), the same id extends, the owner's release frees, available "
+             'again exactly when now >= stored expiry (iff), unknown output rejected. HISTORY-LEVEL, for every prefix of every chain-consistent history '
+             'with any interleaving of lease/release/clock/sweep/receipt/spend/confirmation/reorg/restart events: C12_leases_follow_ledger (the lease '
+             "bucket, 'known output', balance and spendable set are the ledger's), C12_excluded_from_balance, C12_confirmed_spend_removes_lease, and four "
+             'corollaries at reachable states - C12_hist_other_id_cannot_lease / C12_hist_other_id_cannot_release (if the ledger holds the output leased '
+             'to A and the expiry is not reached, a request by B != A leaves store and ledger unchanged and fails), '
+             'C12_hist_leasable_by_anyone_iff_expired, C12_hist_available_iff_expired (back in the spendable set exactly from the expiry on); '
+             'C12_restart_step_is_identity_partial. Tie to the code: histories with a mock clock (hook VerifSetClock) advanced to just before/at/after the '
+             'second-truncated expiry; FULL-WIDTH 32-byte lease ids (independent, sharing a 1..31-byte prefix or suffix, differing in one byte or one '
+             'bit), compared on all 32 bytes; half of the lease/release events target an outpoint an earlier lease asked for; unknown/spent outpoints; '
+             'DeleteExpiredLockedOutputs; a third of the cases on a REAL wallet through Wallet.LeaseOutput / ReleaseOutput / ListLeasedOutputs (which must '
+             "equal the store's list restricted to transactions the wallet knows, with values); RESTART events (store: close and reopen the file; wallet: "
+             'stop, close, reopen, start) after which every observable is compared with the unchanged model and ledger and with the list before the '
+             'restart.',
+        note='Model coq/Tx/Store.v transcribes wtxmgr bucket for bucket; hypotheses: wf_universe and chain_consistent (decidable, Tx/Hist.v). PARTIAL: '
+             "'leases survive restart' - the model and ledger steps of a restart are the identity (the lease bucket is database state); that the real "
+             'store keeps no lease state in memory is exercised by the restart events, not proved. The expiry returned by LockOutput may be the instant '
+             'asked for or the stored second-truncated one (both denote the same lease; no theorem depends on the exact value); theorems and comparison '
+             'use the stored/listed expiry. Observation: a lease does not survive a CONFIRMED spend of the output (the store clears it on purpose; the '
+             "ledger models it): if that spend is later reorganised out and forgotten the output is spendable before the lease's nominal expiry. Trusted: "
+             'Coq kernel+vm_compute, the hand-written model (tied by the differential run after EVERY event), generator, bbolt. No axioms (Print '
+             'Assumptions closed).'),
     "C13": dict(
         text='Eight theorems, each for every prefix of every chain-consistent history. C13_details_equal_ledger: for every transaction id, TxDetails '
              'reports it iff the ledger knows it, under its current block or as unconfirmed, with exactly the credited outputs (amount, change flag, spent '
@@ -182,7 +196,10 @@ CHECKS = {
              "wtxmgr.DependencySort 20x each and through Store.UnminedTxs on a real store; every returned order checked in Coq and by a direct Go oracle.",
         note="All clauses proved for the model. Go map order is not observable, so the tie compares property-relevant behaviour only (each implementation "
              "output must be an admissible Kahn run); exact FIFO reproduction is a diagnostic, never a failure (a LIFO work list does not alarm). "
-             "Assumed: map key = hash of its transaction. No axioms (Print Assumptions closed x5; coqchk: none)."),
+             "Assumed: map key = hash of its transaction. 'Every unconfirmed transaction' for Store.UnminedTxs is judged against the harness's OWN ledger "
+             "(inserted unmined, minus confirmed, abandoned and conflict-removed with their spend chains; some parents are real mined coinbase or ordinary "
+             "transactions with credits), never against UnminedTxHashes of the same store (tag only), so a record lost by both calls is seen; the ledger is "
+             "harness code (trusted). No axioms (Print Assumptions closed x5; coqchk: none)."),
     "C07": dict(
         text='Model Fee/Fee.v transcribes txrules.FeeForSerializeSize (truncation, zero-fee-becomes-rate rule, MaxSatoshi clamp), GetDustThreshold/IsDust, '
              'txrules.CheckOutput, txsizes.EstimateVirtualSize, the loop of txauthor.NewUnsignedTransaction over BOTH wallet input sources '
